@@ -120,10 +120,18 @@ def gen_history(rng, tier):
 
 def harness(ctx):
     R = vlib.REPO
-    exe, log = ctx.cc('h_mlog', [os.path.join(vlib.VERIF, 'harness/h_mlog.c'), R + '/librfn/string.c', R + '/librfn/util.c', R + '/librfn/posix/time_posix.c'],
-                      ['-I' + R + '/librfn'])
+    common = [R + '/librfn/string.c', R + '/librfn/util.c', R + '/librfn/posix/time_posix.c']
+    exe, log = ctx.cc('h_mlog', [os.path.join(vlib.VERIF, 'harness/h_mlog.c')] + common, ['-I' + R + '/librfn'])
+    if exe:
+        return exe
+    # the harness reaches into `struct mlog` (counter jump, zeroing): if that no longer compiles, use the public interface only
+    exe, log2 = ctx.cc('h_mlog', [os.path.join(vlib.VERIF, 'harness/h_mlog.c'), R + '/librfn/mlog.c'] + common, ['-DVERIF_BLACKBOX'])
     if not exe:
         raise vlib.Unbuildable('mlog harness does not compile against /repo: ' + log[-1500:])
+    ctx.blackbox = True
+    err = [l for l in log.split('\n') if 'error' in l][:2]
+    ctx.broken.append('correspondence on internal state: the mlog harness no longer compiles against the log\'s data representation ('
+                      + '; '.join(e.strip()[-160:] for e in err) + '); rebuilt against the public interface only (no counter jump to the 2^31 fold)')
     return exe
 
 
@@ -133,6 +141,8 @@ def run(ctx):
     exe = harness(ctx)
     nh = 40 if ctx.tier == 'quick' else 600
     hs = [gen_history(rng, ctx.tier) for _ in range(nh)]
+    if ctx.blackbox:
+        hs = [h for h in hs if not any(l.startswith('sethead') for l in h)]
     agreed = vlib.correspond(ctx, 'mlog', [exe], hs, spec=spec, valid=valid)
     for h in hs:
         ctx.count(tuple(h), nontrivial=any(l.startswith('get') or l == 'dump' for l in h))
